@@ -23,7 +23,8 @@ ASSUME = [
     'task already reached (parentless tasks spawn their own successor); '
     'catalogue restricted to tasks that, once parented at a point, stay '
     'parented at later points',
-    'manual exemption: `cylc trigger` of single pre-start instances (budget '
+    'manual exemption: `cylc trigger` (in the running flow, no --flow=new) '
+    'of single pre-start instances (budget '
     '1 command per execution, offered at every main-loop boundary); what a '
     'manually triggered pre-start instance leads to before START must not '
     'run',
@@ -61,12 +62,12 @@ BASES = {
     'feed': (FEED, 3, 3, {}),
     'multi': (MULTI, 3, 4, {}),
     'back2': (BACK2, 4, 4, RA0),
-    'prev2': (P1('prev2'), None, 3, RA0),
+    'prev2': (P1('prev2'), 3, 3, {}),
     'and': (P1('and'), None, 2, {}),
     'or': (P1('or'), None, 2, {}),
     'chain3': (P1('chain3'), None, 2, {}),
     'orprev': (ORPREV, None, 3, RA0),
-    'andprev': (ANDPREV, None, 3, RA0),
+    'andprev': (ANDPREV, None, 3, {}),
     'ends': (ENDS, None, 3, {}),
 }
 # quick: (base, warm start points, start-task selections, trigger?)
@@ -78,6 +79,7 @@ QUICK = [
     ('feed', (2,), (), False),
     ('multi', (2,), (), False),
     ('back2', (3,), (), False),
+    ('prev2', (2,), (), False),
 ]
 
 
